@@ -2,6 +2,7 @@ CONSTANTS NP = 0
  NT = 0
  NF = 2
  NA = 0
+ NC = 0
  Light = TRUE
 INIT InitGen
 NEXT EvalGen
